@@ -356,12 +356,13 @@ fn gen_c09(r: &mut Rng, idx: u64) -> Vec<Op> {
     ops.push(Op::InitArea { start: stack + 256, len: 64, seed: r.next() | 1, named: false });
     let mut cells: Vec<(u32, u32)> = Vec::new(); // (mask, path)
     for mask in 0..8u32 {
-        for path in 0..18u32 {
+        for path in 0..19u32 {
             cells.push((mask, path));
         }
     }
     r.shuffle(&mut cells);
     let _ = idx;
+    let mut scratch = 0x60_0000u64;
     for (mask, path) in cells {
         let off = r.below(dlen - 16);
         match path {
@@ -462,6 +463,22 @@ fn gen_c09(r: &mut Rng, idx: u64) -> Vec<Op> {
                     _ => ops.push(Op::GuestStore { size: *r.pick(&[1u32, 4, 8]), addr: nops + r.below(32), val: hex(0x90) }),
                 }
                 ops.push(Op::Resize { start: nops, new_len: 64 });
+            }
+            18 => {
+                // a fresh area starts with the default rights whatever stood at its address before: an area is
+                // put under `mask`, emptied, and a new one is created at the same start
+                let s0 = scratch;
+                scratch += 0x1000;
+                ops.push(Op::InitArea { start: s0, len: 64, seed: 5, named: false });
+                ops.push(Op::Prot { start: s0, prot: mask });
+                ops.push(Op::Resize { start: s0, new_len: 0 });
+                ops.push(Op::InitArea { start: s0, len: 64, seed: 10, named: false }); // seed % 5 == 0: NOPs
+                match r.below(4) {
+                    0 => ops.push(Op::WriteBytes { addr: s0 + r.below(32), len: r.range(1, 8), seed: r.next() }),
+                    1 => ops.push(Op::ReadBytes { addr: s0 + r.below(32), len: r.range(1, 8) }),
+                    2 => ops.push(Op::GuestFetch { addr: s0 + r.below(32) }),
+                    _ => ops.push(Op::GuestStore { size: *r.pick(&[1u32, 4, 8]), addr: s0 + r.below(32), val: hex(0x90) }),
+                }
             }
             16 => {
                 // implicit stack store at the very top of the stack area, neighbour under `mask`
